@@ -1716,6 +1716,16 @@ impl Model {
     #[doc(hidden)]
     /// Internal helper that validates the model and optimizes constraints before search.
     /// This ensures all solving methods benefit from validation and constraint optimization.
+    /// Verification hook H2 (cfg `selen_verif` only): run the model's own lowering
+    /// (`prepare_for_search`: bound inference, materialisation of pending ASTs, validation) and
+    /// hand back the lowered variables and propagators without searching.
+    #[cfg(selen_verif)]
+    #[doc(hidden)]
+    pub fn verif_lower(self) -> Result<(crate::variables::Vars, crate::constraints::props::Propagators), SolverError> {
+        let (vars, props, _pending_lp) = self.prepare_for_search()?;
+        Ok((vars, props))
+    }
+
     /// Errors recorded while the model was being built: the first constraint validation error,
     /// or the exceeded memory budget. Every solving entry point has to report them.
     fn build_error(&self) -> Option<SolverError> {
